@@ -103,6 +103,9 @@ def main():
         sh("git checkout -- . && git clean -fdq tests", WT)
     # run the checks against the change
     rc, o = sh("git apply %s" % patch, REPO)
+    if rc != 0:
+        # made against an earlier commit of /repo: merge it
+        rc, o = sh("git apply --3way %s" % patch, REPO)
     assert rc == 0, "cannot apply to /repo: " + o
     try:
         for c in checks:
@@ -116,7 +119,7 @@ def main():
             if rc not in (0, 1):
                 print(o[-800:])
     finally:
-        sh("git checkout -- .", REPO)
+        sh("git reset -q --hard HEAD", REPO)
     os.makedirs(keep, exist_ok=True)
     if src.startswith("/tmp/mut"):
         shutil.copy(patch, os.path.join(keep, "patch.diff"))
